@@ -6,7 +6,7 @@ From FT.lib Require Import Num Arr ArrLemmas Lower NumArr.
 From FT.gen Require Import Common Fteik2d Fteik3d.
 From Coq Require Import Reals.
 From FT.proofs Require Import Sweep2dProofs Sweep3dProofs Solve2dProofs Solve3dProofs.
-From FT.proofs Require OperatorsR NonNeg2d Pos2d.
+From FT.proofs Require OperatorsR NonNeg2d Pos2d NonNeg3d.
 Import ListNotations.
 Open Scope Z_scope.
 
@@ -174,6 +174,97 @@ Theorem C03_solve2d_zero_near_source :
        (Rabs (IZR i - zsrc / dz) <= 1 / 1000000000000000)%R /\ (Rabs (IZR j - xsrc / dx) <= 1 / 1000000000000000)%R.
 Proof. exact @Pos2d.fteik2d_zero_near_source. Qed.
 
+(* tie: the generated 3D node update writes node_value true = min(t0, 1D, 2D, guarded 8-point candidate), every numeric instance *)
+Theorem C03_node_update_3d_value :
+  forall (T : Type) (H : Num T) (tt : arr T) (ttsgn : arr Z) (slow : arr T)
+         (dz dx dy dz2i dx2i dy2i dzxi dzyi dxyi dsum : T) (i j k sgnvz sgnvx sgnvy sgntz sgntx sgnty nz nx ny : Z)
+         (grad : bool),
+       fst
+         (sweep tt ttsgn slow (dz, dx, dy, dz2i, dx2i, dy2i, dzxi, dzyi, dxyi, dsum) i j k sgnvz sgnvx sgnvy sgntz
+            sgntx sgnty nz nx ny grad) =
+       set tt [i; j; k]
+         (NonNeg3d.node_value true tt slow dz dx dy dz2i dx2i dy2i dzxi dzyi dxyi dsum i j k sgnvz sgnvx sgnvy sgntz
+            sgntx sgnty nz nx ny).
+Proof. exact @NonNeg3d.sweep_tt_eq_guarded. Qed.
+
+(* one 3D node update keeps every traveltime >= 0, all spacings (the 8-point candidate is discarded when earlier than the diagonally opposite corner: fix 7b708d7) *)
+Theorem C03_node_update_nonneg_3d :
+  forall (tt : arr R) (ttsgn : arr Z) (slow : arr R) (dz dx dy : R)
+         (i j k sgnvz sgnvx sgnvy sgntz sgntx sgnty nz nx ny : Z) (grad : bool),
+       (0 < dz)%R ->
+       (0 < dx)%R ->
+       (0 < dy)%R ->
+       NonNeg2d.nonneg slow ->
+       NonNeg2d.nonneg tt ->
+       NonNeg2d.nonneg
+         (fst
+            (sweep tt ttsgn slow (SweepDargs.dargs3 dz dx dy) i j k sgnvz sgnvx sgnvy sgntz sgntx sgnty nz nx ny grad)).
+Proof. exact @NonNeg3d.sweep_nonneg_3d. Qed.
+
+(* a whole 3D pass *)
+Theorem C03_pass_nonneg_3d :
+  forall (tt : arr R) (ttsgn : arr Z) (slow : arr R) (dz dx dy : R) (nz nx ny : Z) (grad : bool),
+       (0 < dz)%R ->
+       (0 < dx)%R ->
+       (0 < dy)%R ->
+       NonNeg2d.nonneg slow ->
+       NonNeg2d.nonneg tt -> NonNeg2d.nonneg (fst (sweep3d tt ttsgn slow dz dx dy nz nx ny grad)).
+Proof. exact @NonNeg3d.sweep3d_nonneg. Qed.
+
+(* every traveltime returned by the 3D solver is >= 0, and the reported source-cell slowness, for every model with non-negative slowness, positive spacings, every source, nsweep and flag *)
+Theorem C03_solve3d_nonneg :
+  forall (slow : arr R) (dz dx dy zsrc xsrc ysrc : R) (nsweep : Z) (grad : bool) (tt ttgrad : arr R) (vzero : R),
+       (0 < dz)%R ->
+       (0 < dx)%R ->
+       (0 < dy)%R ->
+       wf slow ->
+       shape slow = [dim slow 0; dim slow 1; dim slow 2] ->
+       (forall i j k : Z,
+        0 <= i < dim slow 0 -> 0 <= j < dim slow 1 -> 0 <= k < dim slow 2 -> (0 <= get 0 slow [i; j; k])%R) ->
+       fteik3d slow dz dx dy zsrc xsrc ysrc nsweep grad = Ok (tt, ttgrad, vzero) ->
+       (forall i j k : Z,
+        0 <= i <= dim slow 0 -> 0 <= j <= dim slow 1 -> 0 <= k <= dim slow 2 -> (0 <= get 0 tt [i; j; k])%R) /\
+       (0 <= vzero)%R.
+Proof. exact @NonNeg3d.fteik3d_nonneg_get. Qed.
+
+(* record of the defect repaired by 7b708d7: the UNGUARDED 8-point operator admits non-negative neighbour times passing its own test with a negative result exactly when the three spacings are not all equal *)
+Theorem C03_eight_point_unguarded_negative_iff_noncubic :
+  forall p q r : R,
+       (0 < p)%R ->
+       (0 < q)%R ->
+       (0 < r)%R ->
+       (exists tv te tn tev ten tnv tnve vref : R,
+          (0 <= tv)%R /\
+          (0 <= te)%R /\
+          (0 <= tn)%R /\
+          (0 <= tev)%R /\
+          (0 <= ten)%R /\
+          (0 <= tnv)%R /\
+          (0 <= tnve)%R /\
+          (0 <= vref)%R /\
+          (NonNeg3d.op3_t3 tv te tn tev ten tnv tnve (p * q) (p * r) (q * r) <= NonNeg3d.op3_t2 vref (p + q + r))%R /\
+          (NonNeg3d.op3 tv te tn tev ten tnv tnve vref p q r (p * q) (p * r) (q * r) (p + q + r) < 0)%R) <->
+       ~ (p = q /\ q = r).
+Proof. exact @NonNeg3d.op3_negative_iff_noncubic. Qed.
+
+(* node-level witness over R for the pre-fix update: dz = dy = 1, dx = 1/2 writes -3/10 *)
+Theorem C03_node_update_unguarded_refuted :
+  ((0 < 1)%R /\
+        (0 < 1 / 2)%R /\
+        NonNeg2d.nonneg NonNeg3d.cx_slow /\
+        NonNeg2d.nonneg NonNeg3d.cx_tt /\ wf NonNeg3d.cx_tt /\ shape NonNeg3d.cx_tt = [2; 2; 2]) /\
+       NonNeg3d.node_value_sp false NonNeg3d.cx_tt NonNeg3d.cx_slow 1%R (1 / 2)%R 1%R 1 1 1 1 1 1 1 1 1 2 2 2 =
+       (-3 / 10)%R.
+Proof. exact @NonNeg3d.node_unguarded_refuted. Qed.
+
+(* on cubic cells the guarded and the unguarded node values coincide: the fix changes nothing there *)
+Theorem C03_eight_point_guard_noop_cubic :
+  forall (tt slow : arr R) (d : R) (i j k sgnvz sgnvx sgnvy sgntz sgntx sgnty nz nx ny : Z),
+       (0 < d)%R ->
+       NonNeg3d.node_value_sp true tt slow d d d i j k sgnvz sgnvx sgnvy sgntz sgntx sgnty nz nx ny =
+       NonNeg3d.node_value_sp false tt slow d d d i j k sgnvz sgnvx sgnvy sgntz sgntx sgnty nz nx ny.
+Proof. exact @NonNeg3d.t3d_guard_noop_cubic. Qed.
+
 Print Assumptions C03_solve2d_raises_iff_source_outside.
 Print Assumptions C03_solve3d_raises_iff_source_outside.
 Print Assumptions C03_initial_grid_shape_2d.
@@ -188,3 +279,10 @@ Print Assumptions C03_four_point_operator_strictly_causal.
 Print Assumptions C03_solve2d_zero_iff_source_node.
 Print Assumptions C03_solve2d_at_most_one_zero.
 Print Assumptions C03_solve2d_zero_near_source.
+Print Assumptions C03_node_update_3d_value.
+Print Assumptions C03_node_update_nonneg_3d.
+Print Assumptions C03_pass_nonneg_3d.
+Print Assumptions C03_solve3d_nonneg.
+Print Assumptions C03_eight_point_unguarded_negative_iff_noncubic.
+Print Assumptions C03_node_update_unguarded_refuted.
+Print Assumptions C03_eight_point_guard_noop_cubic.
